@@ -587,7 +587,7 @@ func targetMatches(got, want string) bool {
 		if w == "inner" {
 			return strings.HasPrefix(g, "lookup(") // a map kept inside another map
 		}
-		return g == w || g == "call:"+w+"()" || strings.HasSuffix(g, "."+w)
+		return g == w || g == "call:"+w+"()" || strings.HasSuffix(g, "."+w) || strings.HasSuffix(g, "."+w+")")
 	}
 	return false
 }
